@@ -38,6 +38,13 @@ def mdiff(a, b):
     return float(np.abs(a - b).max())
 
 
+def _dev(r):
+    try:
+        return mdiff(r[1], r[2])
+    except Exception:
+        return float("inf")
+
+
 class Runner:
     def __init__(self, maker, seed, with_c06=False):
         """maker() -> (arm, spec, base0 4x4)"""
@@ -62,6 +69,7 @@ class Runner:
         self.truncated = 0
         self.stop = False
         self.tainted = False
+        self.cutoff = False
         self.ik_calls = 0
         self.ik_success = 0
 
@@ -136,6 +144,11 @@ class Runner:
         for m in (E, N, rf.trans_inv(E) @ N, home, new_home):
             if rf.rot_angle(m[:3, :3]) > PI - 1e-3:
                 self.tainted = True
+        # the same arithmetic drops a relative rotation below the library's 1e-6 'near zero' cut-off (known finding
+        # exp_cutoff): asking for a tool pose that differs from the current one by such a rotation (typically right after
+        # an IK that converged onto that very pose) loses up to 1e-6 rad
+        if 0 < rf.rot_angle((rf.trans_inv(E) @ N)[:3, :3]) < 2e-6:
+            self.cutoff = True
 
     def do_ik(self, i, rec):
         """goal: FK-reachable pose of an in-limit joint vector (computed by the oracle for the CURRENT
@@ -350,8 +363,8 @@ class Runner:
                 if r is None:
                     seen.add(key)
                     nxt.append(c)
-                elif first_fail is None:
-                    first_fail = r
+                elif first_fail is None or _dev(r) < _dev(first_fail):
+                    first_fail = r          # of the candidate states, show the one the arm came closest to
             nxt = [c for c in nxt if repr(c[i]["st"]) in seen]
             if not nxt and rec["op"] == "move":
                 # the spec lets a move keep or revert a custom tool; if only the other branch was recorded
@@ -365,7 +378,8 @@ class Runner:
                 except Exception:
                     pass
             if not nxt:
-                tiny = any(np.any((np.abs(v) > 0) & (np.abs(v) < 1e-6)) for v in self.ik_ret.values())
+                tiny = self.cutoff or any(np.any((np.abs(v) > 0) & (np.abs(v) < 1e-6))
+                                          for v in list(self.ik_ret.values()) + [zoo.clamp(self.spec, t) for t in self.thetas.values()])
                 return (i, first_fail[0] + ("|log_near_pi" if self.tainted else "|exp_cutoff" if tiny else ""),
                         first_fail[1], first_fail[2],
                         [{k: v for k, v in r.items() if k != "st"} for r in ops[:i + 1]])
